@@ -4,7 +4,7 @@ REPO = "/repo"
 def sh(cmd):
     return subprocess.run(cmd, shell=True, capture_output=True, text=True)
 def clean():
-    return sh(f"git -C {REPO} status --porcelain --untracked-files=no").stdout.strip() == ""
+    return sh(f"git -C {REPO} status --porcelain").stdout.strip() == ""
 def apply_seed(d):
     """d: directory of the seed (with trailing slash). Returns (ok, message)."""
     meta = json.load(open(d + "meta.json"))
@@ -18,4 +18,4 @@ def apply_seed(d):
         return False, r.stderr[:200]
     return True, ""
 def restore():
-    sh(f"git -C {REPO} checkout -- .")
+    sh(f"git -C {REPO} checkout -- . && git -C {REPO} clean -fdq -- src tests")
